@@ -1,7 +1,7 @@
 (* C05 -- Binomial schedules perform the minimal possible number of forward steps
    Property theorems only: each proof is one application of a lemma proved in Proofs/, followed by Print Assumptions. *)
 From Coq Require Import ZArith List Bool.
-From CS Require Inst GW2 RevCost BinomDP RevConv RevBridge4 RevolveRun RevolveGW Opt0Table GenLang3 GenMulti SeqGenSpec.
+From CS Require Inst GW2 RevCost BinomDP RevConv RevBridge4 RevolveRun RevolveGW Opt0Table GenLang3 GenMulti SeqGenSpec HelperGenSpec HelperTC.
 From CS Require Import Actions NAdvance Multistage Exec Sched RunFacts Projections BasicInv MultistageRun AllocTotal TLBridge MixBridge.
 Import ListNotations.
 Open Scope Z_scope.
@@ -15,6 +15,39 @@ Theorem C05_multistage_forward_total : forall (N ram disk : Z) (tj : traj) (c : 
         is_exhausted s1 = true -> fwd_total (cnt (mx m)) = Inst.TC tj N (total c)).
 Proof. exact multistage_run. Qed.
 Print Assumptions C05_multistage_forward_total.
+
+(* THE PUBLISHED HELPER IS THE SOURCE: HelperGenSpec.oes_shape / osb_shape are the Gallina functions harness/translate.py (HelperTr) renders from optimal_extra_steps (behind cache_step: the clamp s = min(s, n - 1), the dictionary being a pure memo) and optimal_steps_binomial of multistage.py -- the recursion on explicit fuel, `for i in range(1, n)` as py_forB over the optional running best; Gen/HelperGen.v re-translates the current source on every run and proves the result equal to these terms by conversion.  The shape is equal, for every fuel and argument, to BinomDP.Em, the dynamic program C05_chain / C05_gw_main are proved about *)
+Module M_C05_helper_is_source.
+Import HelperGenSpec.
+Theorem C05_helper_is_source :
+  forall (fuel : nat) (n s : Z), oes_shape fuel n s = BinomDP.Em fuel n s.
+Proof. exact (@HelperGenSpec.oes_shape_is_Em). Qed.
+Print Assumptions C05_helper_is_source.
+End M_C05_helper_is_source.
+
+(* optimal_steps_binomial(n, s), as translated from the source, returns on its whole domain (n >= 1; s >= 1, or s >= 0 when n = 1; fuel = the recursion depth n) exactly TC n s: the number of forward steps C05_multistage_forward_total and C05_revolve_forward_total establish for the streams (for either trajectory tr), = n + the Griewank-Walther closed form by C05_chain *)
+Module M_C05_helper_value.
+Import HelperTC.
+Theorem C05_helper_value :
+  forall (tr : NAdvance.traj) (f : nat) (n s : Z),
+         1 <= n ->
+         1 <= s \/ n = 1 /\ 0 <= s ->
+         (Z.to_nat n <= f)%nat -> HelperGenSpec.osb_shape f n s = BinomDP.Ok (Inst.TC tr n s).
+Proof. exact (@HelperTC.osb_is_TC). Qed.
+Print Assumptions C05_helper_value.
+End M_C05_helper_value.
+
+(* ... and outside that domain (n <= 0, or s < min(1, n - 1)) both helpers raise ValueError before any recursion *)
+Module M_C05_helper_rejects.
+Import HelperGenSpec.
+Theorem C05_helper_rejects :
+  forall (f : nat) (n s : Z),
+         n <= 0 \/ s < Z.min 1 (n - 1) ->
+         oes_shape (S f) n s = BinomDP.Err BinomDP.ValueError /\
+         osb_shape (S f) n s = BinomDP.Err BinomDP.ValueError.
+Proof. exact (@HelperGenSpec.oes_rejects). Qed.
+Print Assumptions C05_helper_rejects.
+End M_C05_helper_rejects.
 
 (* THE SEQUENCE GENERATORS ARE THE SOURCE: SeqGenSpec.revolve_shape / disk_revolve_shape / periodic_shape are the Gallina functions harness/translate.py (SeqTr) renders from revolve(), disk_revolve() and periodic_disk_revolve() of hrevolve_sequences/ -- every sequence.insert(operation(..)) appends one operation, insert_sequence(f(..).shift(k)) a recursively built list, the loops become for_down / while_, reads of the tables tget / lget with IndexError; Gen/SeqGen.v re-translates the current source on every run and proves the result equal to these terms by conversion.  They are proved equal, for all arguments, to the extracted RevSeq.revolve / RevSeq.disk_revolve / the body of RevSeq.periodic_top, on which every theorem about the Revolve family is stated; this is the top-level call of the constructor (RevConv.sequence) read on the translated source.  Not translated: the tables (get_opt_0_table, get_opt_inf_table), mxrr_close_formula and the Sequence / Operation classes of basic_functions.py (their flattening, shift and remove_useless_wm are Ops.v) *)
 Module M_C05_revolve_sequence_is_source.
